@@ -769,6 +769,8 @@ var _ = late(func() {
 	properties["C01"].Rules = append(properties["C01"].Rules,
 		&Rule{ID: "C01.children-one-more", Floor: 4, Clause: "same rule as C03.children-one-more: a node with n keys has n+1 children wherever keys and children are shifted together (a lost child pointer makes a whole subtree - keys that were never deleted - unreachable)", Run: ruleChildrenOneMore},
 		&Rule{ID: "C01.reseek-direction", Floor: 6, Clause: "same rule as C02.reseek-direction: range iterators that find the tree changed re-seek inclusively to the pending key, so every present entry of the range is still yielded once", Run: ruleReseekDirection},
+		&Rule{ID: "C01.tree-gen", Floor: 6, Clause: "same rule as C02.tree-gen: every path of Put and Delete that changes the structure bumps gen - a range iterator parked on a slot that shifted (or whose separator was replaced in place) otherwise keeps reading it and yields a deleted key, a key twice, or a stale value", Run: ruleTreeGen},
+		&Rule{ID: "C01.unlink-mark", Floor: 2, Clause: "same rule as C02.unlink-mark: a node merged away gets n = 0 and the root is replaced only when empty, so a range iterator parked in it notices (otherwise it walks the dead node: stale values, early end, or an index panic)", Run: ruleTreeUnlinkMark},
 		&Rule{ID: "C01.cursor-validated", Floor: 8, Clause: "same rule as C02.cursor-validated: the iterators behind Range / RangeReverse read the cursor's slot only after lost() was found false (or a re-seek) and the node was re-checked for nil; lost() reads keys[i] only under curr != nil and i < n (a cleared slot can equal a zero-valued key): otherwise a range yields a zero entry, skips one, or panics at the end of the range", Run: ruleCursorValidated},
 		&Rule{ID: "C01.kv-carried-together", Floor: 1, Clause: "loop-carried key and value variables (k/v, key/value) are updated on the same edges: a loop that replaces the key it carries but keeps the old value pairs a key with another key's value", Run: ruleKVCarriedTogether})
 	properties["C14"].Rules = append(properties["C14"].Rules,
@@ -1146,3 +1148,9 @@ func doneArmResult(h *ssa.Function) (bool, bool) {
 	}
 	return false, false
 }
+
+var _ = late(func() {
+	properties["C02"].Rules = append(properties["C02"].Rules, &Rule{ID: "C02.range-stays-bounded", Floor: 6,
+		Clause: "same rule as C01.bounds, far end only: a bounded Range / RangeReverse always wraps the cursor's iterator in the While that enforces the far bound, and the plain iterator is returned only under the Unbounded kind - a shortcut taken from the tree's contents when the range is created lets keys put beyond the bound during the iteration through",
+		Run:    subRule(ruleTreeBounds, "|far:", "|plain-iterator", "|while-outside-kind-test")})
+})
